@@ -124,6 +124,9 @@ def make_invocation(rng, world, with_faults):
           "_lib": {"rule": e["rel"], "input": inp, "type": "binary" if binary else "assembly", "search": "all" if all_matches else "first",
                    "only_addr": only_addr, "macros": macros},
           "_tag": f"{e['family']}:{e['variant']}"}
+    if usage is None and rng.random() < 0.15:
+        # the working directory has seen earlier runs: old log files, a file with today's very name, a symlinked logs/
+        op["_prelogs"] = rng.choice(["old_files", "same_name", "symlink"])
     if with_faults and usage is None:
         fr = rng.random()
         if fr < 0.35:
@@ -209,7 +212,18 @@ def _s(oc):
     return s if len(s) < 200 else s[:200] + "..."
 
 
+PRELOGS = {
+    "old_files": {"logs/INFO/2025_12_31_23_59_59.log": "2025-12-31 23:59:59,000 - jasm.logging_config - INFO - RESULT: Pattern found\n\n",
+                  "logs/ERROR/2025_12_31_23_59_59.log": "old error\n", "logs/unrelated.txt": "x\n"},
+    "same_name": {"logs/INFO/2026_01_02_03_04_05.log": "2026-01-02 03:04:05,000 - jasm.logging_config - INFO - Matched address: dead::beef,|\n",
+                  "logs/DEBUG/2026_01_02_03_04_05.log": "older debug\n"},
+    "symlink": {"real logs/keep": "x\n", "logs": {"symlink": "real logs"}},
+}
+
+
 def check_invocation(files, op, runner, seed=0):
+    if op.get("_prelogs"):
+        files = {**files, **PRELOGS[op["_prelogs"]]}
     runner.reset(files) if runner.state else runner.materialise(files)
     res = runner.run([op], seed)
     got = res["outcomes"][0]
@@ -228,6 +242,8 @@ def calibrate(files, op, got, runner):
                      for f in op.get("faults") or [])
     if not realisable:
         return "skipped"
+    if op.get("_prelogs"):
+        files = {**files, **PRELOGS[op["_prelogs"]]}
     runner.reset(files)
     root = runner.root
     env = dict(os.environ)
